@@ -32,7 +32,8 @@ ASSUMPTIONS = [
     "for line endings other than '\\n' only the written bytes are judged, not what reopening yields",
     "record variants: byte exactness of save() is not demanded, every saved line must load to the model's record",
 ]
-NCASES = {"quick": 3200, "thorough": 200000}
+BASE_CASES = {"quick": 3200, "thorough": 200000}
+NCASES = {"quick": 3840, "thorough": 240000}
 NSHARDS = 16
 SHARD_TIMEOUT = {"quick": 300, "thorough": 3600}
 MOD = "vf.checks.c12"
@@ -345,8 +346,14 @@ def _run(case, res):
                     sig.append(op)
                 if not is_rec and model != before and not obj.dirty:
                     fail("dirty-flag", f"after {desc} changed the content dirty is still False")
-            check_all(desc)
+            if not case.get("quiet"):
+                check_all(desc)
+            else:
+                res.count("quiet_steps_not_followed_by_a_read")
 
+        if case.get("quiet"):
+            check_all(f"the whole quiet history of {len(case['ops'])} operations")
+            res.count("quiet_histories")
         # ---- save
         ending = case["ending"]
         out = os.path.join(d, "saved.txt")
@@ -442,3 +449,22 @@ def replay(doc):
 
 
 RULE += ' Also (wave 9): shallow copies of the opened object with the original dropped and collected.'
+
+
+# ---- quiet histories (wave 12) ------------------------------------------------------------------------------------------
+# Case indices above BASE_CASES repeat the ordinary generator (with its own random draws) but are observed only at the end of
+# the history: the per-step observation reads the object through its public API, and a read can repair or overwrite state
+# that one operation left behind for the next (a deferred update, a remembered position) before the next operation meets it.
+_gen_case_ordinary = gen_case
+
+
+def gen_case(rng, tier, index):
+    if index >= BASE_CASES[tier]:
+        c = _gen_case_ordinary(rng, tier, index - BASE_CASES[tier] + 1)
+        c["quiet"] = True
+        return c
+    return _gen_case_ordinary(rng, tier, index)
+
+
+RULE += (' Also (wave 12): quiet histories (case indices above BASE_CASES) whose steps are not followed by a read through the '
+         'public API; the full comparison comes once, at the end of the history.')
